@@ -276,18 +276,27 @@ impl<K, V> Deref for Entry<K, V> {
     }
 }
 
+/// Deterministic hasher for the instrumented map: iteration order (and with it the
+/// order of equal-timestamp orders in listings) becomes a pure function of the keys,
+/// so a generated case replays identically.
+pub type FixedState = std::hash::BuildHasherDefault<std::collections::hash_map::DefaultHasher>;
+
 /// Instrumented drop-in for `dashmap::DashMap` (the operations the crate uses;
 /// anything else falls through to the real map via `Deref`, unreported).
-pub struct DashMap<K, V>(dashmap::DashMap<K, V>);
+pub struct DashMap<K, V>(dashmap::DashMap<K, V, FixedState>);
 
 impl<K: Eq + Hash + Clone, V: Clone> DashMap<K, V> {
     /// See dashmap.
     pub fn new() -> Self {
-        Self(dashmap::DashMap::new())
+        Self::with_capacity(0)
     }
     /// See dashmap.
     pub fn with_capacity(n: usize) -> Self {
-        Self(dashmap::DashMap::with_capacity(n))
+        Self(dashmap::DashMap::with_capacity_and_hasher_and_shard_amount(
+            n,
+            FixedState::default(),
+            16,
+        ))
     }
     #[inline]
     fn addr(&self) -> usize {
@@ -372,7 +381,7 @@ impl<K: Eq + Hash + fmt::Debug, V: fmt::Debug> fmt::Debug for DashMap<K, V> {
 }
 
 impl<K, V> Deref for DashMap<K, V> {
-    type Target = dashmap::DashMap<K, V>;
+    type Target = dashmap::DashMap<K, V, FixedState>;
     fn deref(&self) -> &Self::Target {
         &self.0
     }
